@@ -63,5 +63,6 @@ def run(ctx):
                 "equal node of the old upper level is reused; dead old children are removed exactly once.")
     nsw = eswap.run(ctx, F)
     ctx.floor("E-TABLE.swap", "interpreted level_swap situations", nsw, 80)
+    ecanon.check_id_split(ctx, F)
     ctx.not_decided = ("uniqueness/reducedness of the stored graph after arbitrary histories; minimal node counts; "
                        "the then-edge regularity of complement-edge nodes (planned tag-lattice rule)")
